@@ -272,6 +272,25 @@ def rule_A_EFF(ctx, repo, cache, must_read_only=False):
                 if not has:
                     # per-key loop form: iterate own keys and remove each
                     has = any(any(c == 'remove' for e, c in effects(o)) and any(c == 'read' for e, c in effects(o)) for o in normal)
+                    if has and ci.name in ('dir_archive', 'hdfdir_archive'):
+                        # ... for a directory archive the entries are removed *as listed*: a path recomputed from the decoded key misses the entries whose
+                        # keys collapse in a dict of keys (1 and 1.0 are two directories and one key), and clear() leaves them behind
+                        for o in normal:
+                            listed = [e.val for e in o.st.events if e.kind == 'LIST' and e.val is not None]
+                            for e, c in effects(o):
+                                if c == 'remove' and e.kind == 'RMTREE' and not contains_term(e.args[0], lambda t: t in listed or (t[0] == 'iter' and t[1] in listed)):
+                                    ctx.ob('A-EFF', '%s.clear removes the entries as listed' % ci.label, False)
+                                    ctx.fail('A-EFF', mq(ci, op), 'clear removes entries by decoded key',
+                                             '%s.clear removes `%s`: the directory is recomputed from a key decoded from the listing instead of being the listed entry '
+                                             'itself - entries whose keys are equal as dict keys but stored separately (1 and 1.0, True and 1) are removed once and the twin '
+                                             'stays, so clear() / sync(clear=True) leave a stale entry that load() brings back' % (ci.label, render(e.args[0])[:70]),
+                                             wh(ci, e.line), render_path(o))
+                                    has = None
+                                    break
+                            if has is None:
+                                break
+                        if has is None:
+                            continue
                 ctx.ob('A-EFF', '%s.clear' % ci.label, has)
                 if not has:
                     ctx.fail('A-EFF', mq(ci, op), 'clear never clears', '%s.clear has no path that empties the store' % ci.label, wh(ci, fi.node.lineno))
@@ -676,8 +695,11 @@ def rule_A_CODEC(ctx, repo):
                      '%s decodes stored entries with %s but encodes them with %s: what one module writes the other cannot always read (dill pickles functions, lambdas '
                      'and classes of __main__ by value, which only dill can load) - the read fails, the archive reports the entry as missing or itself as empty, and the '
                      'next write makes the loss permanent' % (ci.label, ', '.join(sorted(rd)), ', '.join(sorted(wr))), wh(ci, src[1]))
+    if n < 2:
+        raise AnalysisError('instance count below confirmed minimum: %d archive classes with serializer calls on both sides (< 2)' % n)
     if n < 3:
-        raise AnalysisError('instance count below confirmed minimum: %d archive classes with serializer calls on both sides (< 3)' % n)
+        ctx.note('A-CODEC: only %d archive classes name their serializer modules at the call sites (three on the validated tree): a class that keeps its '
+                 'serializer in an attribute is not compared here' % n)
     # ... and values are pickled *by value*: byref=True (or a by-reference pickler) writes classes and functions of the writer's __main__ as names another
     # program cannot resolve - the read fails there and the archive looks empty
     for ci in archive_classes(repo):
@@ -753,7 +775,9 @@ def rule_A_READFAIL(ctx, repo, cache):
             fi, outs, eng = r
             bad = None
             for o in outs:
-                if o.kind != RAISE or o.exc == 'KeyError':
+                # (membership is a question, not a lookup: `key in archive` answers False for what cannot be read - a KeyError there fails the reader that
+                # merely asked while another process was replacing the entry)
+                if o.kind != RAISE or (o.exc == 'KeyError' and op != '__contains__'):
                     continue
                 failed = [e for e in o.st.events if e.kind.endswith('!')]
                 # ... whether it escapes as it is or is caught and re-raised as something else (`except Exception as err: raise OSError(...) from err`)
@@ -798,6 +822,27 @@ def rule_A_RED_MEM(ctx, repo):
                      '%s resolves %s to a method that rebuilds the archive from its class and settings only (%s): the entries, which live in the dict itself, '
                      'are not part of the pickle - the clone of a cached function starts with an empty archive and recomputes what the original loads'
                      % (lab, h, ' '.join(unparse(fn).split())[:90]), '%s:%d' % (ci.methods[h].module.rel if hasattr(ci.methods[h], 'module') else m.rel, fn.lineno))
+    # the sqlite archives default to the database ':memory:', which lives in the connection: a pickling hook that "reconnects" by (database, table) opens
+    # a new, empty in-memory database for the clone.  (Today they define no hook and cannot be pickled at all - a loud TypeError, not a silent loss.)
+    for lab in ('sqltable_archive[!sql]', 'sql_archive[!sql]'):
+        ci = m.classes.get(lab)
+        if ci is None:
+            continue
+        n += 1
+        own = ci.own_methods if hasattr(ci, 'own_methods') else ci.methods
+        hooks = [h for h in ('__reduce__', '__reduce_ex__', '__getstate__') if h in own]
+        bad = None
+        for h in hooks:
+            src = unparse(own[h].node)
+            carries = any(tok in src for tok in ('self.items()', 'dict(self)', 'self.__asdict__()', 'self.copy()')) or ':memory:' in src
+            if not carries:
+                bad = h
+        ctx.ob('A-RED', '%s: a pickling hook accounts for the in-memory database' % lab, bad is None)
+        if bad is not None:
+            ctx.fail('A-RED', mq(ci, bad), 'sqlite archive pickled by reconnecting',
+                     '%s.%s rebuilds the archive from the database url and table name: for the default database `:memory:` (and any sqlite memory url) the clone connects '
+                     'to a brand-new empty database - every archived entry is lost to the restored function, which recomputes what the original loads' % (lab, bad),
+                     wh(ci, own[bad].node.lineno))
     ctx.ob('A-RED', 'in-memory archive classes examined', True, n=max(1, n))
 
 
@@ -860,6 +905,17 @@ def rule_A_SCHEMA(ctx, repo):
                      'an index is created on the archive table (`%s`): lookups by key take "the last row" of an unordered SELECT as the current value, which is the '
                      'most recently written one only while rows come back in rowid order; through a covering index they come back ordered by value, so a key that '
                      'was overwritten reads back an older (larger) value' % ' '.join(node.value.split())[:60], '%s:%d' % (m.rel, node.lineno))
+    # ... and for the same reason a reader takes the *last* row of what a key selects: cursor.fetchone() is the first, i.e. the oldest value ever stored
+    ci_sq = m.classes.get('sqltable_archive[!sql]')
+    if ci_sq is not None:
+        for mname, fi_ in sorted((ci_sq.own_methods if hasattr(ci_sq, 'own_methods') else ci_sq.methods).items()):
+            for x in ast.walk(fi_.node):
+                if isinstance(x, ast.Call) and isinstance(x.func, ast.Attribute) and x.func.attr == 'fetchone':
+                    ctx.ob('A-SCHEMA', '%s.%s takes the last row' % (ci_sq.label, mname), False)
+                    ctx.fail('A-SCHEMA', mq(ci_sq, mname), 'fetchone() on the history table',
+                             '%s.%s reads a key with fetchone(): on a table that keeps every value ever written for a key (every table created before a "one row per '
+                             'key" schema, since `create table if not exists` never changes an existing table) that is the oldest value - an overwritten entry reads back stale '
+                             'while __asdict__ / load() see the new one' % (ci_sq.label, mname), wh(ci_sq, x.lineno))
     if n < 1:
         raise AnalysisError('instance count below confirmed minimum: no `create table` statement found in klepto/_archives.py')
 
@@ -1544,7 +1600,25 @@ def rule_A_VIS_STAGE(ctx, repo, cache, props_note=''):
         ctx.tables['%s lister' % lab] = {'pattern': pat, 'excluded prefixes': excl}
         sites = staging_sites(ci, outs)
         if not sites:
-            raise AnalysisError('%s._store: no staging directory creation found' % lab)
+            # staged somewhere else (the system temp directory) and moved in: the move is a rename only on one file system; across devices shutil.move
+            # copies into the live name, and a kill (or a reader) meets a half-copied entry that the lister already shows
+            foreign = None
+            for o in outs:
+                for e in o.st.events:
+                    if e.kind == 'RENAME' and len(e.args) > 1 and on_self_store(e.args[1]) and not on_self_store(e.args[0]):
+                        foreign = (o, e)
+                        break
+                if foreign:
+                    break
+            if foreign is None:
+                raise AnalysisError('%s._store: no staging directory creation found' % lab)
+            o, e = foreign
+            ctx.ob('A-STAGE', '%s staging copy lives in the archive directory' % lab, False)
+            ctx.fail('A-STAGE', mq(ci, '_store'), 'staged outside the archive directory',
+                     '%s._store builds the new entry in %s and moves it into the archive: that is one atomic rename only when both are on the same file system - otherwise '
+                     'the move is a recursive copy into the live entry name, during which (and for ever after a kill) readers list an empty or partial entry'
+                     % (lab, render(e.args[0])[:70]), wh(ci, e.line), render_path(o))
+            continue
         visible = None
         seen = set()
         for o, p, e in sites:
@@ -2403,14 +2477,23 @@ def rule_A_RED_DERIVED(ctx, repo):
             for c in ast.iter_child_nodes(x):
                 parent[c] = x
 
+        localdeps = {}
+
         def deps(expr):
             out = set()
             for y in ast.walk(expr):
                 if isinstance(y, ast.Name) and y.id in allp:
                     out.add(y.id)
+                elif isinstance(y, ast.Name) and y.id in localdeps:
+                    out |= localdeps[y.id]
                 if isinstance(y, ast.Subscript) and isinstance(y.value, ast.Attribute) and y.value.attr == '__state__' and isinstance(y.slice, ast.Constant):
                     out |= state_src.get(y.slice.value, set(['<state %s>' % y.slice.value]))
             return out
+        # locals computed from the arguments (protocol = kwds.get('protocol', None)) carry their dependences
+        for _round in range(4):
+            for x in ast.walk(fn):
+                if isinstance(x, ast.Assign) and len(x.targets) == 1 and isinstance(x.targets[0], ast.Name) and x.targets[0].id not in allp:
+                    localdeps[x.targets[0].id] = localdeps.get(x.targets[0].id, set()) | deps(x.value)
         for x in ast.walk(fn):
             if not isinstance(x, ast.Assign):
                 continue
